@@ -1,5 +1,4 @@
 import datetime
-import math
 
 DAYS_PER_MONTH = [31, 28, 31, 30, 31, 30, 31, 31, 30, 31, 30, 31]
 DAYS_EPOCH = 25569
@@ -39,7 +38,12 @@ def to_date(oadate):
     # 0001-01-01 .. 9999-12-31; the comparison also rejects NaN
     if not -693593 <= oadate < 2958466:
         raise ValueError(f"day number {oadate} is outside the calendar")
-    value = oadate - DAYS_EPOCH
+    # the day number is a binary float: it is rounded to the millisecond as a
+    # whole, so that a time a hair before midnight becomes midnight of the
+    # next day (rounding the time of day alone stopped at 23:59:59.999)
+    millis = min(round(oadate * 86400000), 2958466 * 86400000 - 1)
+    value, millis = divmod(millis, 86400000)
+    value -= DAYS_EPOCH
     year = 1970
     while value < 0:
         year -= 1
@@ -51,11 +55,7 @@ def to_date(oadate):
     while value >= month_days(year, month):
         value -= month_days(year, month)
         month += 1
-    day = math.trunc(value) + 1
-    # the day fraction is a binary float, so the time of day is rounded to
-    # the millisecond instead of truncated (04:36:54 must not come back as
-    # 04:36:53.999999)
-    millis = min(round((value - math.trunc(value)) * 86400000), 86399999)
+    day = value + 1
     result = datetime.datetime.fromtimestamp(0)
     return result.replace(
         year=year,
